@@ -486,8 +486,10 @@ PlainExact(S, D, n) ==
 OtherSound(S, D, n) ==
     LET sp == D.nodes[n].space IN
     /\ \A c \in Succs(D, n) : Sub(D.nodes[c].space, sp) /\ D.nodes[c].space # sp
+    \* (motifs on such edges may be written relative to the parent, e.g. those copied from a component
+    \* sub-diagram: only require that parent + motif contains the child)
     /\ \A c \in Succs(D, n) : \A k \in DOMAIN D.edges[<<n, c>>] :
-           LET m == D.edges[<<n, c>>][k] IN m \in S.traps /\ Sub(m, sp) /\ Sub(D.nodes[c].space, m)
+           LET m == D.edges[<<n, c>>][k] IN Consistent(sp, m) /\ Sub(D.nodes[c].space, Meet(sp, m))
     /\ IF Succs(D, n) = {} THEN sp \in S.mint
        ELSE \A t \in MinTrapsIn(S, sp) : \E c \in Succs(D, n) : Sub(t, D.nodes[c].space)
 PartialFaithful(S, D) ==
